@@ -139,3 +139,25 @@ Proof.
   split; [vm_compute; reflexivity|].
   exists (EMarkStep 1). eexists. split. vm_compute. reflexivity. vm_compute. auto.
 Qed.
+
+(* ---- operands of a select statement belong to one execution of it (fast/select.go Comp.Select; SelectOps.v) ----
+   Executions of one compiled select statement (several goroutines running the same function, or an operand that
+   re-enters the statement) interleave their operand evaluations arbitrarily.  run false: the scratch array of
+   SelectCase is allocated by the execution (the code that exists); run true: one array per compiled statement. *)
+From Verif Require Import C10.SelectOps C10.SelectProof.
+
+(* for EVERY interleaving: what an execution passes to reflect.Select is what it would pass if it ran alone -
+   its own channel and send operands, whatever other executions of the same statement do in between *)
+Theorem C10_select_operands_private : forall n e tr,
+  calls_of e (SelectOps.run false n store0 tr) = calls_of e (SelectOps.run false n store0 (of_exec e tr)).
+Proof. exact select_operands_private. Qed.
+Print Assumptions C10_select_operands_private.
+
+(* with one array per statement the first execution sends its value on the other execution's channel *)
+Theorem C10_select_shared_scratch_refuted :
+  exists tr, calls_of 1 (SelectOps.run true 1 store0 tr) <> calls_of 1 (SelectOps.run true 1 store0 (of_exec 1%nat tr)) /\
+             calls_of 1 (SelectOps.run true 1 store0 tr) = [[(Some 20%Z, Some 1%Z)]].
+Proof.
+  exists shared_witness. destruct select_shared_refuted as (A & B & _). rewrite A, B. split; [discriminate | reflexivity].
+Qed.
+Print Assumptions C10_select_shared_scratch_refuted.
